@@ -114,7 +114,7 @@ struct C17 : Prop {
 		J se = cfg::normal_session(0, r.chance(600) ? 0 : (int) r.range(5, 40));
 		J phs = J::arr();
 		{ J ph = J::obj(); ph.set("compare", true); J post = J::arr(); post.push("quiesce"); ph.set("post", post); phs.push(ph); }
-		int nph = (int) r.range(1, thorough ? 6 : 4), maxt = 1;
+		int nph = (int) r.range(1, thorough ? 6 : 4), maxt = 1; bool did_reset = false;
 		for (int p = 0; p < nph; p++) {
 			J ph = J::obj(); J ev = J::arr();
 			int t = 0;
@@ -127,7 +127,8 @@ struct C17 : Prop {
 				for (int i = 0, no = (int) r.range(1, thorough ? 14 : 8); i < no; i++) {
 					uint64_t x = r.below(100);
 					if (x < 75) { J g = api::get_op(r, ids, w); g.set("op", "getr"); ops.push(g); }
-					else if (x < 88) { J h = api::hl_op(r, ids); ops.push(h); }
+					else if (x < 87) { J h = api::hl_op(r, ids); ops.push(h); }
+					else if (x < 88 && q == 0 && !did_reset && r.chance(300)) { J ro = J::obj(); ro.set("op", "reset"); ops.push(ro); did_reset = true; }      // (one system reset per run, by one task, while the others keep querying)
 					else { J s = J::obj(); s.set("op", "sleep"); s.set("us", (int) r.range(100, 10000)); ops.push(s); }
 				}
 				tasks.push(ops);
